@@ -18,13 +18,13 @@ CONSTANTS
   Horizon = 2
   Budgets = {1}
   Kinds = {"sink", "relay", "follower"}
-  Acyclic = TRUE
+  Acyclic = FALSE
   DueFirst = FALSE
   PostRunSetup = FALSE
   Phased = TRUE
   DefVals = {1}
   Sparse = FALSE
-INVARIANTS ExactlyOnce NoStrangers InOrder StackOK ParamsSeen ParamsSeenRunning RowsOK
+INVARIANTS ExactlyOnce NoStrangers InOrderUnlessReentrant StackOK ParamsSeen ParamsSeenRunning RowsOK
 PROPERTIES TimeOK Rejected WrongType LockRespected
 VIEW View
 CONSTRAINT Bound
